@@ -558,5 +558,48 @@ def sql_chain(prog: Program) -> RuleResult:
     return r
 
 
+def sql_state(prog: Program) -> RuleResult:
+    """The bookkeeping of a translation (which paths are joined under which alias) belongs to one statement.  A default argument is
+    evaluated once, when the function is defined: a default that constructs an object is shared by every call that omits it, so the
+    second translation finds the first one's joins 'already made' and refers to aliases that are not in its FROM clause."""
+    r = RuleResult("SQL-STATE", "no state is shared between translations through default arguments or class attributes", floor=5)
+    tr = prog.cls(TR)
+    mod = tr.module
+    n = 0
+    for f in sorted([f for f in prog.functions.values() if f.module is mod], key=lambda x: x.qual):
+        a = f.node.args
+        defaults = list(a.defaults) + [d for d in a.kw_defaults if d is not None]
+        n += 1
+        bad = None
+        for d in defaults:
+            if isinstance(d, (ast.List, ast.Dict, ast.Set, ast.ListComp, ast.DictComp, ast.SetComp)):
+                bad = bad or d
+            if isinstance(d, ast.Call):
+                q = mod.resolve(d.func) if isinstance(d.func, (ast.Name, ast.Attribute)) else None
+                immutable = isinstance(d.func, ast.Name) and d.func.id in ("frozenset", "tuple", "int", "str", "float", "bool", "bytes")
+                if not immutable:
+                    bad = bad or d
+        r.check(bad is None, f"{f.short}#defaults", site(f, bad) if bad is not None else site(f), src(bad)[:60] if bad is not None else f"{len(defaults)} default(s)",
+                "defaults are constants", f"the default `{src(bad) if bad is not None else ''}` is built once and shared by all calls that omit the argument: what one translation records "
+                "(joined paths, aliases) is seen by the next, which then skips a JOIN and selects from an alias that is not in its statement (cartesian product)")
+    # class-level mutable attributes of the translator and its helpers (dataclass fields must use default_factory)
+    for c in [c for c in prog.classes.values() if c.module is mod]:
+        for an, fi in c.attrs.items():
+            v = getattr(fi, "value", None)
+            if v is None:
+                continue
+            if fi.is_classvar:
+                # a class-level constant table is fine; an instance of one of the module's own (stateful) classes is not
+                q = mod.resolve(v.func) if isinstance(v, ast.Call) and isinstance(v.func, (ast.Name, ast.Attribute)) else None
+                shared = q in prog.classes and prog.classes[q].module is mod
+            else:
+                shared = isinstance(v, (ast.List, ast.Dict, ast.Set)) or (isinstance(v, ast.Call) and not (isinstance(v.func, ast.Name) and v.func.id == "field"))
+            r.check(not shared, f"{c.name}.{an}#per-instance", c.loc, src(v)[:60], "per-instance (constant or default_factory)",
+                    f"{c.name}.{an} = {src(v)[:40]} is one object for all instances")
+    if n < 5:
+        raise AnalysisError("SQL-STATE: the translator module has fewer than 5 functions")
+    return r
+
+
 def run(prog: Program, tier: str) -> List[RuleResult]:
-    return [sql_reject(prog), sql_ops(prog), sql_varid(prog), sql_alias(prog), sql_fetch(prog), sql_membership(prog), sql_chain(prog)]
+    return [sql_reject(prog), sql_ops(prog), sql_varid(prog), sql_alias(prog), sql_fetch(prog), sql_membership(prog), sql_chain(prog), sql_state(prog)]
